@@ -214,15 +214,18 @@ def binding_demo(run, files, checked):
                         raise vlib.Inconclusive("binding demo: corrupted line %d but TLC stopped at %d" % (i + 1, v.hwm + 1))
                     done_corrupt = True
         if not done_drop:
+            tries = 0
             for i in range(len(lines) - 1, -1, -1):
                 l = lines[i]
                 if l.startswith('{"op":"commit"') and '"o":"set"' in l:
                     p = os.path.join(wd, "d.ndjson")
                     open(p, "w").write("\n".join(lines[:i] + lines[i + 1:]) + "\n")
                     v = vlib.validate_trace(SPECDIR, "KVTrace", "KVTraceRun.cfg", p, extra_files={"KVTraceRun.cfg": cfgb})
+                    tries += 1
                     if not v.accepted:
                         done_drop = True
-                    break
+                    if done_drop or tries >= 4:
+                        break
         if done_corrupt and done_drop:
             break
     if not (done_corrupt and done_drop):
